@@ -163,6 +163,11 @@ def _sizes(c):
     return {n: CONTIG_SIZE + i for i, n in enumerate(c["names"])}
 
 
+def _asizes(c):
+    """the sizes dict handed to the package (dressed names)"""
+    return {_nm(c, n): v for n, v in _sizes(c).items()}
+
+
 def _ign_names(c):
     ig = [n for n in c["names"] if c.get("filt", True) and "_" in n]
     dv = c.get("derive")
@@ -176,6 +181,57 @@ def _ign_names(c):
 def _incl_names(c):
     ig = _ign_names(c)
     return [n for n in c["names"] if n not in ig]
+
+
+def tw_of(dr):
+    return (dr.get("twin") or {}).get("of", UNK)
+
+
+def _dress_map(c):
+    """`dress`: the case's names are replaced, consistently in the genome AND in the data, by long look-alikes:
+    every name n (genome names, the ignored name, names only in the data) becomes n + '|' + fill; the UNKNOWN name
+    becomes a near copy of the dressed genome contig `of`: two characters `d` apart exchanged (`swap`), one character
+    replaced (`subst`), the last characters dropped (`trunc`) or one appended (`ext`). Canonical names are used in the
+    case, the model request and the oracle; only the package sees the dressed ones. '_' occurs in a dressed name iff it
+    occurs in the canonical one (the default filter looks for it)."""
+    dr = c.get("dress")
+    if not dr:
+        return None
+    fill = dr["fill"]
+    canon = list(c["names"]) + [n for s in c["streams"] for n, _ in s["groups"]] + [IGN, UNK, tw_of(dr)]
+    m = {n: n + "|" + fill for n in canon}
+    tw = dr.get("twin")
+    if tw:
+        base = m[tw["of"]]
+        kind, i = tw["kind"], tw["i"] % len(base)
+        if kind == "swap":
+            j = (i + tw["d"]) % len(base)
+            ch = list(base)
+            ch[i], ch[j] = ch[j], ch[i]
+            t = "".join(ch)
+        elif kind == "subst":
+            t = base[:i] + ("x" if base[i] != "x" else "y") + base[i + 1:]
+        elif kind == "trunc":
+            t = base[:max(1, len(base) - 1 - i % 3)]
+        else:
+            t = base + "0"
+        if "_" in t or t in [m[n] for n in canon if n != UNK]:
+            return None                                 # not a usable look-alike: the case falls back to plain names
+        m[UNK] = t
+    return m
+
+
+def _nm(c, n):
+    m = _dress_map(c)
+    return m.get(n, n) if m else n
+
+
+def _undress(c, names):
+    m = _dress_map(c)
+    if not m:
+        return list(names)
+    inv = {v: k for k, v in m.items()}
+    return [inv.get(n, n) for n in names]
 
 
 def _entries(stream):
@@ -220,7 +276,7 @@ def model_request(c):
 def _genome_case(c, g):
     """the case seen by one of the genomes of a `mem_pair` case: same sizes, its own contig order and filter"""
     names = sorted(c["names"]) if g.get("sort") else list(g["names"])
-    return {"names": names, "filt": g.get("filt", True)}
+    return {"names": names, "filt": g.get("filt", True), "dress": c.get("dress"), "streams": c["streams"]}
 
 
 # ------------------------------------------------------------------ implementation
@@ -245,6 +301,7 @@ def _str_keyed():
 
 
 _MATE = {}
+_CUR_CASE = None           # the case being run (name dressing of the tables built by _mk_stream)
 _CUR_FIELD = None          # (field name, decoy name) when the grouping column is not `chromosome`
 
 
@@ -296,14 +353,14 @@ def _mk_stream(stream, kind="interval"):
                 (cls(["chr1"], [0], [1], ["chr1"]) if _CUR_FIELD else cls(["chr1"], [0], [1]))
             out.append(one[np.array([False])])
             continue
-        names = [n for n, _ in ch]
+        names = [_nm(_CUR_CASE, n) for n, _ in ch] if _CUR_CASE else [n for n, _ in ch]
         s = np.array([i for _, i in ch], dtype=int)
         if kind == "bedgraph":
             out.append(BedGraph(names, s, s + 1, s + 1))
         elif _CUR_FIELD:
             # the `chromosome` column is a decoy that is itself compatible with the genome; the names under test sit
             # in `mate_chromosome`
-            out.append(cls([_CUR_FIELD[1]] * len(names), s, s + 1, names))
+            out.append(cls([_nm(_CUR_CASE, _CUR_FIELD[1])] * len(names), s, s + 1, names))
         else:
             out.append(cls(names, s, s + 1))
     return NpDataclassStream(iter(out), cls)
@@ -326,7 +383,7 @@ def _names_of(col):
 def _per_contig(c, chrom, positions):
     incl = _incl_names(c)
     out = {n: [] for n in incl}
-    for n, p in zip(chrom, positions):
+    for n, p in zip(_undress(c, chrom), positions):
         out[n].append(int(p))
     return [out[n] for n in incl]
 
@@ -341,15 +398,15 @@ def _derive(c, base, sizes):
     dv = c.get("derive")
     if not dv:
         return base
-    derived = base.with_ignored_added(list(dv["added"]))
+    derived = base.with_ignored_added([_nm(c, n) for n in dv["added"]])
     if dv.get("extras"):
         # more objects over the very same dict object
         bnp.Genome.from_dict(sizes, sort_names=True)
         GenomeContext.from_dict(sizes, ignore_underscores)
-        GenomeContext.from_dict(sizes, None).with_ignored_added(list(dv["added"]))
+        GenomeContext.from_dict(sizes, None).with_ignored_added([_nm(c, n) for n in dv["added"]])
     if dv.get("warm"):
         ctx = derived.get_genome_context() if hasattr(derived, "get_genome_context") else derived
-        names = [n for n in dv["added"]] + [c["names"][-1]]
+        names = [_nm(c, n) for n in dv["added"]] + [_nm(c, c["names"][-1])]
         try:
             list(ctx.iter_chromosomes(NpDataclassStream(iter([Interval(names, [0] * len(names), [1] * len(names))]), Interval), Interval))
         except Exception:
@@ -357,13 +414,13 @@ def _derive(c, base, sizes):
     result = derived if dv.get("use") == "derived" else base
     if dv.get("use") == "second":
         # a second, different derivation from the same parent, made after the first one
-        result = base.with_ignored_added(list(dv["added2"]))
+        result = base.with_ignored_added([_nm(c, n) for n in dv["added2"]])
     elif dv.get("use") == "fresh":
         # a fresh object built from the caller's very same dict, after a derivation was made from its sibling
         flt = ignore_underscores if c.get("filt", True) else None
         result = (bnp.Genome.from_dict(sizes, filter_function=flt) if hasattr(base, "get_genome_context")
                   else GenomeContext.from_dict(sizes, flt))
-    if list(sizes.keys()) != list(c["names"]) or list(sizes.values()) != [CONTIG_SIZE + i for i in range(len(c["names"]))]:
+    if list(sizes.keys()) != [_nm(c, n) for n in c["names"]] or list(sizes.values()) != [CONTIG_SIZE + i for i in range(len(c["names"]))]:
         raise _CallerDictMutated()
     return result
 
@@ -374,15 +431,45 @@ class _CallerDictMutated(Exception):
 
 def _ctx(c):
     from bionumpy.genomic_data.genome_context import GenomeContext, ignore_underscores
-    sizes = _sizes(c)
+    sizes = _asizes(c)
     return _derive(c, GenomeContext.from_dict(sizes, ignore_underscores if c.get("filt", True) else None), sizes)
 
 
 def _genome(c):
     import bionumpy as bnp
     from bionumpy.genomic_data.genome_context import ignore_underscores
-    sizes = _sizes(c)
+    sizes = _asizes(c)
     return _derive(c, bnp.Genome.from_dict(sizes, filter_function=ignore_underscores if c.get("filt", True) else None), sizes)
+
+
+def _mem_obs(G, gc, table, ents):
+    """the two in-memory routes of one genome object over one table: pull-all iter_chromosomes(mask_data(table)) and the
+    mask of get_intervals(table).as_stream() through the computation graph"""
+    import bionumpy as bnp
+    from bionumpy.datatypes import Interval
+    obs = []
+    for how in ("iter", "mask"):
+        try:
+            if not ents:
+                raise _NoData()
+            if how == "iter":
+                ctx = G.get_genome_context()
+                obs.append({"out": [_ids(t) for t in ctx.iter_chromosomes(ctx.mask_data(table()), Interval)]})
+            else:
+                r = bnp.compute(G.get_intervals(table()).as_stream().get_mask().get_data())
+                chrom, pos = [], []
+                for n, s, e in zip(_names_of(r.chromosome), r.start.tolist(), r.stop.tolist()):
+                    for p in range(int(s), int(e)):
+                        chrom.append(n); pos.append(p)
+                obs.append({"out": _per_contig(gc, chrom, pos)})
+        except _NoData:
+            obs.append({"out": [[] for _ in _incl_names(gc)]})
+        except Exception as e:
+            import traceback
+            if os.path.abspath(traceback.extract_tb(e.__traceback__)[-1].filename) == os.path.abspath(__file__):
+                raise
+            obs.append({"err": "raised"})
+    return obs
 
 
 def _mem_pair(c):
@@ -390,9 +477,9 @@ def _mem_pair(c):
     import bionumpy as bnp
     from bionumpy.datatypes import Interval
     from bionumpy.genomic_data.genome_context import ignore_underscores
-    sizes = _sizes(c)
+    sizes = _asizes(c)
     ents = _entries(c["streams"][0])
-    table = lambda: Interval([n for n, _ in ents], np.array([i for _, i in ents], dtype=int), np.array([i + 1 for _, i in ents], dtype=int))
+    table = lambda: Interval([_nm(c, n) for n, _ in ents], np.array([i for _, i in ents], dtype=int), np.array([i + 1 for _, i in ents], dtype=int))
     res = []
     for g in c["genomes"]:
         gc = _genome_case(c, g)
@@ -400,31 +487,31 @@ def _mem_pair(c):
         if g.get("sort"):
             G = bnp.Genome.from_dict(dict(sizes), sort_names=True, filter_function=flt)
         else:
-            G = bnp.Genome.from_dict({n: sizes[n] for n in g["names"]}, filter_function=flt)
-        obs = []
-        for how in ("iter", "mask"):
-            try:
-                if not ents:
-                    raise _NoData()
-                if how == "iter":
-                    ctx = G.get_genome_context()
-                    obs.append({"out": [_ids(t) for t in ctx.iter_chromosomes(ctx.mask_data(table()), Interval)]})
-                else:
-                    r = bnp.compute(G.get_intervals(table()).as_stream().get_mask().get_data())
-                    chrom, pos = [], []
-                    for n, s, e in zip(_names_of(r.chromosome), r.start.tolist(), r.stop.tolist()):
-                        for p in range(int(s), int(e)):
-                            chrom.append(n); pos.append(p)
-                    obs.append({"out": _per_contig(gc, chrom, pos)})
-            except _NoData:
-                obs.append({"out": [[] for _ in _incl_names(gc)]})
-            except Exception as e:
-                import traceback
-                if os.path.abspath(traceback.extract_tb(e.__traceback__)[-1].filename) == os.path.abspath(__file__):
-                    raise
-                obs.append({"err": "raised"})
-        res.append(obs)
+            G = bnp.Genome.from_dict({_nm(c, n): sizes[_nm(c, n)] for n in g["names"]}, filter_function=flt)
+        res.append(_mem_obs(G, gc, table, ents))
     return {"res": res}
+
+
+def _mem_pre(c):
+    """an in-memory table whose contig column was ALREADY ENCODED by another genome object (`other`: the same contigs in
+    another order, fewer, more, or the very same list) is handed to the genome under test: through
+    other.get_intervals(table).data, or as a column encoded directly with the other object's encoding"""
+    import bionumpy as bnp
+    from bionumpy.datatypes import Interval
+    from bionumpy.encoded_array import as_encoded_array
+    from bionumpy.genomic_data.genome_context import ignore_underscores
+    sizes = {n: CONTIG_SIZE + i for i, n in enumerate(sorted(set(c["names"]) | set(c["other"]["names"])))}
+    ents = _entries(c["streams"][0])
+    names = [n for n, _ in ents]
+    st, en = np.array([i for _, i in ents], dtype=int), np.array([i + 1 for _, i in ents], dtype=int)
+    O = bnp.Genome.from_dict({n: sizes[n] for n in c["other"]["names"]}, filter_function=None)    # keeps every row
+    G = bnp.Genome.from_dict({n: sizes[n] for n in c["names"]}, filter_function=ignore_underscores if c.get("filt", True) else None)
+    if c["other"].get("how") == "column":
+        table = lambda: Interval(as_encoded_array(names, O.get_genome_context().encoding), st, en)
+    else:
+        table = lambda: O.get_intervals(Interval(names, st, en)).data
+    table()                                           # the preparation itself must work (all names are in `other`)
+    return {"res": [_mem_obs(G, c, table, ents)]}
 
 
 class _NoData(Exception):
@@ -437,10 +524,14 @@ def _call(c):
     global _CUR_KEY, _CUR_FIELD
     op = c["op"]
     st = c["streams"]
+    global _CUR_CASE
+    _CUR_CASE = c
     _CUR_KEY = c.get("key", "id")
     _CUR_FIELD = ("mate_chromosome", c["field"]["decoy"]) if c.get("field") else None
     if op == "mem_pair":
         return _mem_pair(c)
+    if op == "mem_pre":
+        return _mem_pre(c)
     if op == "iter":
         kw = {"group_field": _field()} if _CUR_FIELD else {}
         return {"out": [_ids(t) for t in _ctx(c).iter_chromosomes(_mk_stream(st[0]), _table_class(), **kw)]}
@@ -455,7 +546,7 @@ def _call(c):
             fn = os.path.join(_tmpdir(), f"{core.case_hash(c)}-{os.getpid()}.bed")
             with open(fn, "w") as fh:
                 for n, i in _entries(st[0]):
-                    fh.write(f"{n}\t{i}\t{i + 1}\n")
+                    fh.write(f"{_nm(c, n)}\t{i}\t{i + 1}\n")
             gi = _genome(c).read_intervals(fn, stream=True)
         else:
             gi = _genome(c).get_intervals(_mk_stream(st[0]))
@@ -473,7 +564,7 @@ def _call(c):
             fn = os.path.join(_tmpdir(), f"{core.case_hash(c)}-{os.getpid()}.bdg")
             with open(fn, "w") as fh:
                 for n, i in _entries(st[0]):
-                    fh.write(f"{n}\t{i}\t{i + 1}\t{i + 1}\n")
+                    fh.write(f"{_nm(c, n)}\t{i}\t{i + 1}\t{i + 1}\n")
             t = _genome(c).read_track(fn, stream=True)
         else:
             t = _genome(c).get_track(_mk_stream(st[0], "bedgraph"))
@@ -487,7 +578,7 @@ def _call(c):
     from bionumpy.streams import MultiStream
     if op == "ms":
         opt = c.get("msopt") or {}
-        sizes = _sizes(c)
+        sizes = _asizes(c)
         if opt.get("sizes") == "chromsize":
             from bionumpy.datatypes import ChromosomeSize
             sizes = ChromosomeSize(list(sizes.keys()), list(sizes.values()))
@@ -496,12 +587,12 @@ def _call(c):
             src = dict(src, groups=[[n[3:], ids] for n, ids in src["groups"]])
         if opt.get("value") == "table":
             ents = _entries(src)
-            a = _table_class()([n for n, _ in ents], np.array([i for _, i in ents], dtype=int), np.array([i + 1 for _, i in ents], dtype=int))
+            a = _table_class()([_nm(c, n) for n, _ in ents], np.array([i for _, i in ents], dtype=int), np.array([i + 1 for _, i in ents], dtype=int))
         else:
             a = _mk_stream(src)
         kw = {"a": a}
         if opt.get("indexed"):
-            kw["vals"] = {n: k for k, n in enumerate(c["names"])}
+            kw["vals"] = {_nm(c, n): k for k, n in enumerate(c["names"])}
         ms = MultiStream(sizes, **kw)
         if _CUR_FIELD:
             ms.a.set_grouping_attribute(_field())
@@ -514,19 +605,19 @@ def _call(c):
             return {"out": [_ids(x) for x, _ in rows], "vals": [int(v) for _, v in rows]}
         return {"out": [_ids(t) for t in ms.a]}
     if op == "ms_zip":
-        ms = MultiStream(_sizes(c), a=_mk_stream(st[0]), b=_mk_stream(st[1]))
+        ms = MultiStream(_asizes(c), a=_mk_stream(st[0]), b=_mk_stream(st[1]))
         if _CUR_FIELD:
             ms.a.set_grouping_attribute(_field())
             ms.b.set_grouping_attribute(_field())
         return {"rows": [[_ids(x), _ids(y), [int(l)]] for x, y, l in zip(ms.a, ms.b, ms.lengths)]}
     if op in ("jaccard", "forbes"):
         from bionumpy.arithmetics.similarity_measures import jaccard, forbes
-        v = (jaccard if op == "jaccard" else forbes)(_sizes(c), _mk_stream(st[0]), _mk_stream(st[1]))
+        v = (jaccard if op == "jaccard" else forbes)(_asizes(c), _mk_stream(st[0]), _mk_stream(st[1]))
         return {"value": float(v).hex()}
     if op == "left_join":
         from bionumpy.streams.left_join import left_join
         from bionumpy.streams import groupby
-        return {"out": [_ids(d) for _, _, d in left_join(_sizes(c).items(), groupby(_mk_stream(st[0]), _field()))]}
+        return {"out": [_ids(d) for _, _, d in left_join(_asizes(c).items(), groupby(_mk_stream(st[0]), _field()))]}
     raise ValueError(op)
 
 
@@ -597,6 +688,15 @@ def oracle(c):
         return SKIP
     if c.get("source") == "file" and not _entries(st[0]):
         return SKIP
+    if op == "mem_pre":
+        if not _entries(st[0]) or any(n not in c["other"]["names"] for n in names_in_data):
+            return SKIP                                # the other genome object could not have encoded the column
+        sp = _spec_stream(_incl_names(c), _ign_names(c), st[0])
+        o = {"err": "raised"} if sp is None else {"out": sp}
+        # a column that carries ANOTHER encoding may be refused; when it is accepted every contig gets its own entries
+        # (the other object ignores nothing: it is "the same genome" only if the one under test ignores nothing either)
+        same = list(c["other"]["names"]) == list(c["names"]) and not _ign_names(c)
+        return {"res": [[o, o]], "refusal_ok": not same}
     if op == "mem_pair":
         if not _entries(st[0]):
             return SKIP                                # an empty in-memory table has no chromosome column to encode
@@ -633,6 +733,16 @@ def oracle(c):
 
 
 def agree(c, got, exp):
+    if c["op"] == "mem_pre":
+        if not (isinstance(got, dict) and "res" in got):
+            return False                               # the preparation by the other genome object failed
+        for g, e in zip(got["res"][0], exp["res"][0]):
+            if g.get("err") == "raised":
+                if not (exp["refusal_ok"] or e.get("err") == "raised"):
+                    return False
+            elif core.canon(g) != core.canon(e):
+                return False
+        return True
     if isinstance(got, dict) and got.get("err") == "raised":
         return exp.get("err") == "raised"
     return core.canon(got) == core.canon(exp)
@@ -674,7 +784,9 @@ def finding_key(c, got, exp):
     suffix = (":after-derived-genome" if c.get("derive") else "") + \
              (":empty-chunk" if any(s.get("empty_at") for s in c["streams"]) else "")
     if c["op"] == "mem_pair":
-        return "mem_pair:second-genome-in-process:wrong-or-silent"
+        return "mem_pair:second-genome-in-process:wrong-or-silent" if not c.get("dress") else "mem_pair:look-alike-names:wrong-or-silent"
+    if c["op"] == "mem_pre":
+        return "mem_pre:column-encoded-by-another-genome:wrong-or-silent"
     return _finding_key(c, got, exp) + suffix
 
 
@@ -747,6 +859,70 @@ def cases(tier, rng):
     _tmpdir()
     yield from _cases_main(tier, rng)
     yield from _cases_round4(tier, rng)
+    yield from _cases_round7(tier, rng)
+
+
+_FILL = "ABCDEFGHIJKLMNOPQRSTUVWXYZabcdefghijklmnopqrstuvwxyz0123456789|.=-"
+
+
+def _twins(rng, base_len, big):
+    """near copies of a dressed genome name: exchanges of two characters at EVERY distance (thorough) / at the distances
+    around powers of two and a few others (quick), single substitutions at any position, truncations, an extension"""
+    ds = set(range(1, base_len)) if big else \
+        {d for k in range(0, 9) for d in (2 ** k - 1, 2 ** k, 2 ** k + 1) if 1 <= d < base_len} | {rng.randrange(1, base_len) for _ in range(6)}
+    for d in sorted(ds):
+        yield {"kind": "swap", "d": d, "i": rng.randrange(0, base_len - d)}
+        if d % 16 == 0:
+            yield {"kind": "swap", "d": d, "i": rng.choice([0, 1, base_len - d - 1])}
+    for i in sorted({0, 1, base_len // 2, base_len - 1} | {rng.randrange(base_len) for _ in range(8 if big else 3)}):
+        yield {"kind": "subst", "i": i}
+    for i in (0, 1, 2):
+        yield {"kind": "trunc", "i": i}
+    yield {"kind": "ext", "i": 0}
+
+
+def _cases_round7(tier, rng):
+    big = tier in ("thorough", "widen")
+    # 7a. LONG contig names (assembly-style identifiers of 5 .. 300 characters) and unknown names that are near copies of
+    #     a genome name: the data names a contig that is not in the genome -> an error, through the in-memory routes
+    #     (names are looked up through the string hash) and the streamed ones
+    for base in (["chr1", "chr2", "chr3"], ["chr1", IGN, "chr2"]):
+        plain = [n for n in base if "_" not in n]
+        for flen in ((0, 12, 58, 59, 60, 61, 66, 123, 124, 125, 251, 252, 253, 296) if big else (0, 59, 60, 66, 124, 253)):
+            fill = "".join(rng.choice(_FILL) for _ in range(flen))
+            twins = list(_twins(rng, 5 + flen, big and flen in (66, 296)))
+            if not big:
+                twins = rng.sample(twins, min(len(twins), 12)) + [t for t in twins if t["kind"] == "swap" and t["d"] in (32, 64, 128, 256)]
+            for tw in twins + [None]:
+                dress = {"fill": fill, "twin": dict(tw, of=rng.choice(plain)) if tw else None}
+                seqs = [[UNK], [plain[0], UNK], [UNK, plain[-1]], list(base)] if tw else [list(base), [plain[-1]], [plain[-1], plain[0]], [UNK]]
+                for seq in (seqs if big or tw is None else rng.sample(seqs, 2)):
+                    groups = _with_ids(seq, rng)
+                    s1 = {"groups": groups, "cuts": []}
+                    gs = [{"names": base}] if rng.random() < 0.6 else [{"names": base}, {"names": base[::-1], "filt": rng.random() < 0.5}]
+                    yield {"names": base, "op": "mem_pair", "genomes": gs, "streams": [s1], "dress": dress}
+                    if big or rng.random() < 0.3:
+                        n_e = sum(len(i) for _, i in groups)
+                        sc = {"groups": groups, "cuts": rng.choice(_cut_sets(n_e, "quick", rng))}
+                        for op in ("iter", "genome_mask", "left_join"):
+                            yield {"names": base, "filt": True, "op": op, "streams": [sc], "dress": dress, "key": rng.choice(["id", "str"])}
+                        yield {"names": base, "filt": True, "op": "ms", "streams": [sc], "dress": dress, "msopt": {"value": "table"}}
+                        yield {"names": base, "filt": True, "op": "genome_mask", "streams": [{"groups": groups, "cuts": []}], "dress": dress, "source": "file"}
+    # 7b. a table whose contig column is already encoded by ANOTHER genome object: every other order of the same contigs,
+    #     one contig fewer, one more, the same list; ignored contigs at every position of the genome under test
+    targets = [(["chr1", "chr2", "chr3"], True), (["chr1", "chr2", IGN], True), (["chr1", IGN, "chr2"], True),
+               ([IGN, "chr1", "chr2"], True), (["chr1", IGN, "chr2"], False), (["chr2", "chr1", "chr10"], True)]
+    for names, filt in targets:
+        others = [list(p) for p in itertools.permutations(names)]
+        others += [names[:k] + names[k + 1:] for k in range(len(names))] + [names[:k] + ["chrX"] + names[k:] for k in (0, 1, len(names))]
+        others += [list(reversed(o)) for o in others[-3:]]
+        for onames in others:
+            seqs = list(_group_sequences(onames, 3))[1:]
+            for seq in (seqs if big else rng.sample(seqs, min(len(seqs), 5)) + [[n for n in names if n in onames]]):
+                groups = _with_ids(seq, rng)
+                for how in ("genome", "column"):
+                    yield {"names": names, "filt": filt, "op": "mem_pre", "other": {"names": onames, "how": how},
+                           "streams": [{"groups": groups, "cuts": []}]}
 
 
 def _cases_round4(tier, rng):
